@@ -642,6 +642,11 @@ def finish(ctx, level="model_checking"):
     }
     cov.update(ctx.extra)
     nviol = len(ctx.violations)
+    # records that TLC could not evaluate are undecided: they may be stepped over when the run reports a violation anyway,
+    # but a run that would otherwise end "held" has not decided them - that is a tool error, not a pass
+    und = ctx.extra.get("judge_undecided_records", 0)
+    if und and nviol == 0:
+        raise ToolError("%d observation(s) could not be evaluated by TLC and no violation was found elsewhere (see the [judge] lines)" % und)
     ev = {
         "property_id": ctx.pid, "tier": ctx.tier, "seed": ctx.seed, "level": level,
         "coverage": cov, "assumptions": ctx.assumptions,
